@@ -44,7 +44,7 @@ class Contract(object):
                  modifies=(), loops=None, trusted=False, kind='function', note='',
                  pure=False, defaults=None, exc_modifies=None, tags=(), must_fail=(), axioms=(),
                  ghost_at=None, rely=None, detached=None, yield_guarantee=(), inline=None, assumed=(),
-                 call_requires=None, local_types=None):
+                 call_requires=None, local_types=None, seq_only=()):
         self.qual = qual
         self.params = dict(params or {})
         self.ret = ret
@@ -70,7 +70,10 @@ class Contract(object):
         # callee short name -> [(name, spec)]: extra obligations at every call of that callee made by THIS function,
         # over the caller's state with the callee's bound parameters visible as arg_<param>
         self.call_requires = dict(call_requires or {})
-        self.local_types = dict(local_types or {})   # local name -> Ty of an initially empty container literal
+        self.local_types = dict(local_types or {})
+        # names of ensures that talk about the whole heap / all other objects: valid for one call, NOT composable under
+        # the parallel-for rule (several instances would contradict each other) -- the rule skips them
+        self.seq_only = set(seq_only)   # local name -> Ty of an initially empty container literal
         self.assumed = list(assumed)       # clauses assumed at call sites but NOT proved from the body (reported as assumptions)
         self.inline = inline               # pure accessor: result is exactly this spec expression (must also be an ensures)
         self.must_fail = list(must_fail)   # deliberately false postconditions (vacuity guard)
